@@ -5,8 +5,10 @@ import os
 VERIF = os.path.dirname(os.path.dirname(os.path.abspath(__file__)))
 
 CLAIMED = {}
+# only properties listed in harness/claims/READY (reviewed by the lead) are claimed
+READY = set(open(os.path.join(VERIF, "harness", "claims", "READY")).read().split())
 for _fn in sorted(os.listdir(os.path.join(VERIF, "harness", "claims"))):
-    if _fn.endswith(".json"):
+    if _fn.endswith(".json") and _fn[:-5] in READY:
         CLAIMED[_fn[:-5]] = json.load(open(os.path.join(VERIF, "harness", "claims", _fn)))
 
 PENDING_REASON = "check not built yet in this round (planned; see DESIGN.md §7); not claimed until its Lean model, theorems and correspondence exist"
